@@ -34,7 +34,7 @@ class C05(Prop):
     sources = ["socialchoicekit/randomized_allocation.py"]
     groups = {"eat": Group("eat", "From SCK Require Import Argsort RunEat.", "RunEat.eat_case", "RunEat.chk_eat")}
     rule = ("exhaustive: all strict complete profiles with n<=3 (1+4+216) x speed vectors {equal, (1,2,3), (1/2,1/3,1), ...}; random profiles up to n=7 (quick) / 8 (thorough) with "
-            "equal, integer and fractional speeds; both entry points (SimultaneousEating.bistochastic, ProbabilisticSerial.bistochastic); int and float rank dtypes. "
+            "equal, integer and fractional speeds (also stored as float32/float16/integer arrays, exactly); both entry points (SimultaneousEating.bistochastic, ProbabilisticSerial.bistochastic); int and float rank dtypes. "
             "Each float result is compared entrywise within 1e-7 with the exact model inside Coq and with an independent exact simulation. Non-trivial = n >= 2; distinct by input hash")
     trusted_base = ["exact-rational model Eat3.v of randomized_allocation.py:86-141 without the 1e-9 snapping (which only absorbs rounding); binary64 deviation is measured per case, not proved"]
     assumptions = ["profile strict, complete and square; speeds positive"]
@@ -76,6 +76,15 @@ class C05(Prop):
             e = [53, 70, 200, 1000, -30, -60, -300, -1000, 1020, -1020][i % 10]
             sp = [Fraction(rng.randint(1, 3)) * Fraction(2) ** e for _ in range(n)]
             yield dict(entry="SimultaneousEating.bistochastic", family="clock_unit", P=P, speeds=[str(x) for x in sp], ps=False, dtype=["int64", "float"][i % 2])
+        # the speed vector stored in a narrower floating or an integer dtype; every speed is exactly representable there, so the process is the same one
+        for i in range(60 if tier == "quick" else 800):
+            n = rng.randint(2, 5)
+            P = [rng.sample(range(1, n + 1), n) for _ in range(n)]
+            sdt = ["float32", "float16", "int64", "int32", "uint8", "float32", "float16"][i % 7]
+            if sdt.startswith("float") and i % 2: sp = [Fraction(rng.choice([1, 2, 3, 1, 1])) * Fraction(1, rng.choice([1, 2, 4])) for _ in range(n)]
+            else: sp = [Fraction(rng.choice([1, 1, 2, 3])) for _ in range(n)]
+            if i % 5 == 0: sp = [Fraction(1)] * n
+            yield dict(entry="SimultaneousEating.bistochastic", family="speed_dtype", P=P, speeds=[str(x) for x in sp], ps=False, sdtype=sdt)
         # halving chain: events at 1/2, 3/4, 7/8, ..., 1 - 2^-(n-1): agents that are ALMOST full when an event happens
         for n in ([12, 18, 20] if tier == "quick" else [10, 12, 14, 16, 18, 19, 20, 21, 22]):
             rows = [list(range(n)), [0, n - 1] + list(range(1, n - 1))] + [[i - 1] + [j for j in range(n) if j != i - 1] for i in range(2, n)]
@@ -90,7 +99,7 @@ class C05(Prop):
         from socialchoicekit.randomized_allocation import SimultaneousEating, ProbabilisticSerial
         from socialchoicekit.profile_utils import StrictCompleteProfile
         A = lay(np.array(case["P"], dtype=(float if case.get("dtype") == "float" else np.int64)), case.get("layout"))
-        sp = np.array([float(Fraction(s)) for s in case["speeds"]])
+        sp = np.array([float(Fraction(s)) for s in case["speeds"]]).astype(case.get("sdtype", "float64"))
         A0, sp0 = A.copy(), sp.copy()
         def go():
             prof = StrictCompleteProfile.of(A)
